@@ -78,6 +78,12 @@ def cfgSameB (c1 c2 : Cfg) : Bool :=
   sameSet c1.labels c2.labels && sameSet c1.ulSubs c2.ulSubs &&
   [4, 38, 48, 58].all fun p => rowSame (c1.arities.find? (fun a => a.1 == p)) (c2.arities.find? (fun a => a.1 == p))
 
+/-- The two `switch len(…)` tables are the same: same first parameters, and per first parameter the same set of accepted
+    lengths (order of the `case` clauses irrelevant), same "or more" flag. -/
+def aritiesSameB (a1 a2 : List (Nat × List Nat × Bool)) : Bool :=
+  sameSet (a1.map (·.1)) (a2.map (·.1)) &&
+  (a1.map (·.1)).all fun p => rowSame (a1.find? (fun a => a.1 == p)) (a2.find? (fun a => a.1 == p))
+
 theorem accepts_of_rowSame (c1 c2 : Cfg) (p : Nat)
     (h : rowSame (c1.arities.find? (fun a => a.1 == p)) (c2.arities.find? (fun a => a.1 == p)) = true) (n : Nat) :
     c1.accepts p n = c2.accepts p n := by
